@@ -270,3 +270,62 @@ brk("c04-unquoted-window-name", ["C04"], "src/backend/query_builder.rs",
     """                write!(sql, " OVER ").unwrap();
                 name.unquoted(sql.as_writer())""", "C04.R3:raw-iden")
 brk("c04-mysql-quote-const", ["C04"], "src/backend/mysql/mod.rs", "const QUOTE: Quote = Quote(b'`', b'`');", "const QUOTE: Quote = Quote(b'\"', b'\"');", "C04.R1:quote:mysql")
+
+# ---- C16 -------------------------------------------------------------------------------------------------------
+brk("c16-inc-without-append", ["C16"], "src/token.rs",
+    """            } else if !first && Self::is_identifier(c) {
+                write!(string, "{c}").unwrap();
+                self.inc();""",
+    """            } else if !first && Self::is_identifier(c) {
+                self.inc();""", "C16.R1:unquoted")
+brk("c16-punct-excludes-delims", ["C16"], "src/token.rs",
+    "            if !Self::is_space(c) && !Self::is_alphanumeric(c) {", "            if !Self::is_space(c) && !Self::is_alphanumeric(c) && !Self::is_identifier(c) {", "C16.R3:class")
+brk("c16-no-progress", ["C16"], "src/token.rs",
+    """            } else if !first {
+                escape = !escape && Self::is_escape_char(c);
+                write!(string, "{c}").unwrap();
+                self.inc();
+            } else {
+                break;
+            }
+        }
+        if !string.is_empty() {
+            Some(Token::Quoted(string))""",
+    """            } else if !first {
+                escape = !escape && Self::is_escape_char(c);
+                if escape { continue; }
+                write!(string, "{c}").unwrap();
+                self.inc();
+            } else {
+                break;
+            }
+        }
+        if !string.is_empty() {
+            Some(Token::Quoted(string))""", "C16.R4:quoted")
+brk("c16-escape-always", ["C16"], "src/token.rs",
+    """                escape = !escape && Self::is_escape_char(c);
+                write!(string, "{c}").unwrap();
+                self.inc();
+            } else {
+                break;
+            }
+        }
+        if !string.is_empty() {
+            Some(Token::Quoted(string))""",
+    """                escape = Self::is_escape_char(c);
+                write!(string, "{c}").unwrap();
+                self.inc();
+            } else {
+                break;
+            }
+        }
+        if !string.is_empty() {
+            Some(Token::Quoted(string))""", "C16.R6:quoted")
+
+# ---- C19 -------------------------------------------------------------------------------------------------------
+brk("c19-all-to-any", ["C19"], "sea-query-derive/src/lib.rs",
+    "        && name.chars().all(|c| c == '_' || c.is_ascii_alphanumeric())", "        && name.chars().any(|c| c == '_' || c.is_ascii_alphanumeric())", "C19.R1:predicate")
+brk("c19-and-to-or-assign", ["C19"], "sea-query-derive/src/lib.rs", "            is_all_valid &= v.must_be_valid_iden();", "            is_all_valid |= v.must_be_valid_iden();", "C19.R2:enum:flag-update")
+brk("c19-swapped-branches", ["C19"], "sea-query-derive/src/lib.rs", "    let prepare = if is_all_valid {\n", "    let prepare = if !is_all_valid {\n", "C19.R2:enum:guard")
+brk("c19-lowercase", ["C19"], "sea-query-derive/src/iden/write_arm.rs", "            self.ident.to_string().to_snake_case()\n        }\n    }", "            self.ident.to_string().to_lowercase()\n        }\n    }", "C19.R")
+brk("c19-table-lowercase-cmp", ["C19"], "sea-query-derive/src/iden/write_arm.rs", '        if self.ident == "Table" {', '        if self.ident == "table" {', "C19.R")
